@@ -65,10 +65,12 @@ Proof.
       destruct (find_opt rs f) as [ru|]; [|discriminate].
       destruct (nargs0 (r_act ru)); [discriminate|]. injection He as <-.
       rewrite render_cons; cbn [render_item app]. rewrite (IH r its); [|lia|exact Hr]. rewrite (split_first_join _ _ _ _ Hs). reflexivity. }
-    destruct (find_opt rs (head2 t)) as [ru|]; [|discriminate].
-    destruct (nargs0 (r_act ru)); [discriminate|].
+    destruct (find_opt rs (head2 t)) as [ru|].
+    { destruct (nargs0 (r_act ru)); [discriminate|].
+      destruct (scan rs r) as [its|] eqn:Hr; [|discriminate]. injection H as <-.
+      rewrite render_cons; cbn [render_item app]. rewrite (IH r its); [|lia|exact Hr]. rewrite head2_tail2. reflexivity. }
     destruct (scan rs r) as [its|] eqn:Hr; [|discriminate]. injection H as <-.
-    rewrite render_cons; cbn [render_item app]. rewrite (IH r its); [|lia|exact Hr]. rewrite head2_tail2. reflexivity.
+    rewrite render_cons; cbn [render_item app]. rewrite (IH r its); [reflexivity|lia|exact Hr].
 Qed.
 
 (* ------------------------------------------------------------------ classification of well-formed items *)
@@ -145,6 +147,34 @@ Proof.
   apply String.eqb_eq in Ho. apply String.eqb_eq in He. subst os e. rewrite Hf. reflexivity.
 Qed.
 
+Lemma classify_unk rs t :
+  wf_item rs (IUnk t) = true ->
+  (classify rs t = CPos \/ classify rs t = CUnk) /\ String.eqb t "--" = false.
+Proof.
+  cbn [wf_item]. intros H.
+  apply andb_prop in H. destruct H as [H Htup].
+  apply andb_prop in H. destruct H as [H Hsplit].
+  apply andb_prop in H. destruct H as [H Hno].
+  apply andb_prop in H. destruct H as [Hd Hdd].
+  split; [|apply negb_true_iff; exact Hdd].
+  unfold classify. destruct (String.eqb t ""); [auto|]. rewrite Hd. cbn [negb].
+  destruct (find_opt rs t); [discriminate|].
+  destruct (Nat.eqb (String.length t) 1); [auto|].
+  assert (Hbe : match split_first "="%char t with
+                | Some (o, e) => match find_opt rs o with Some r0 => Some (COpt r0 o (Some e)) | None => None end
+                | None => None
+                end = None).
+  { destruct (split_first "="%char t) as [[o e]|]; [|reflexivity].
+    destruct (find_opt rs o); [discriminate|reflexivity]. }
+  rewrite Hbe.
+  assert (Ht : (if second_dash t then [] else tuples (all_flags rs) t) = []).
+  { destruct (second_dash t); [reflexivity|]. cbn [orb] in Htup.
+    destruct (tuples (all_flags rs) t); [reflexivity|discriminate]. }
+  rewrite Ht.
+  destruct (is_negnum t && negb (existsb is_negnum (all_flags rs))); [auto|].
+  destruct (has_char " "%char t); auto.
+Qed.
+
 (* ------------------------------------------------------------------ the loop on rendered items *)
 Definition no_ambig (l : list (string * cls)) : bool :=
   negb (existsb (fun tc => match snd tc with CAmbig => true | _ => false end) l).
@@ -169,7 +199,7 @@ Proof.
   - split; reflexivity.
   - cbn [forallb] in Hwf. apply andb_prop in Hwf. destruct Hwf as [Hit Hrest].
     cbn [fold_left]. unfold render. cbn [flat_map]. fold (render items).
-    destruct it as [f|f v|f v|f v|s]; cbn [render_item app].
+    destruct it as [f|f v|f v|f v|s|u]; cbn [render_item app].
     + (* I0 *)
       cbn [wf_item] in Hit. apply andb_prop in Hit. destruct Hit as [Hit Hdd].
       apply andb_prop in Hit. destruct Hit as [H0 Hd]. apply negb_true_iff in Hdd.
@@ -210,6 +240,11 @@ Proof.
       destruct (IH (item_effect rs (IPos s) n) Hrest) as [Ha Hl]. split.
       * unfold no_ambig in *. cbn. exact Ha.
       * cbn [loop]. exact Hl.
+    + (* IUnk *)
+      destruct (classify_unk _ _ Hit) as [Hc Hdd].
+      rewrite (classify_all_cons _ _ _ Hdd).
+      destruct (IH (item_effect rs (IUnk u) n) Hrest) as [Ha Hl].
+      destruct Hc as [Hc|Hc]; rewrite Hc; (split; [unfold no_ambig in *; cbn; exact Ha|cbn [loop]; exact Hl]).
 Qed.
 
 (* C12_flags_exact: M = S on every command line S reads *)
